@@ -272,9 +272,7 @@ func genTree(t *rapid.T) TreeCase {
 	if pol.Comments && tree.HasRef() {
 		pol.NoCommentInRef = !vr.Want("core-comment-in-ref", true)
 	}
-	if vr.Off("str-raw-cr-for-lf") {
-		pol.NoRawCRForLF = true
-	}
+	pol.NoRawCRForLF = true // domain restriction, see NOTES.md: a raw end-of-line inside a literal string is always a bare LF
 	w := pdfsyn.NewWriter(pol, pdfsyn.Rapid(t))
 	w.Obj(tree)
 	w.Trailer()
@@ -324,7 +322,7 @@ func metaTree(c TreeCase) vr.Meta {
 }
 
 func TestTrees(t *testing.T) {
-	vr.Prop(t, "tree", vr.N(6000, 220000), genTree, metaTree, checkTree)
+	vr.Prop(t, "tree", vr.N(40000, 800000), genTree, metaTree, checkTree)
 }
 
 // ---------------------------------------------------------------------------
@@ -385,7 +383,7 @@ func genProg(t *rapid.T) ProgCase {
 	pol.Comments = vr.Want("cs-comment", pol.Comments)
 	pol.NoOddHex = vr.Off("cs-odd-hex")
 	pol.NoKeywordAtDelim = vr.Off("cs-keyword-at-delim")
-	pol.NoRawCRForLF = vr.Off("str-raw-cr-for-lf")
+	pol.NoRawCRForLF = true // domain restriction, see NOTES.md
 	pol.NoCommentInRef = true // no references in content streams anyway
 	w := pdfsyn.NewWriter(pol, pdfsyn.Rapid(t))
 	if rapid.Bool().Draw(t, "leadingGap") {
@@ -439,7 +437,7 @@ func metaProg(c ProgCase) vr.Meta {
 }
 
 func TestPrograms(t *testing.T) {
-	vr.Prop(t, "program", vr.N(3000, 80000), genProg, metaProg, checkProg)
+	vr.Prop(t, "program", vr.N(24000, 400000), genProg, metaProg, checkProg)
 }
 
 func init() {
